@@ -262,6 +262,7 @@ def main():
         if rc:
             broken.append(("tooling", "translator build failed: " + out[-300:]))
         rc, out = translate()
+        skipped = [l.strip() for l in out.split("\n") if "not translated:" in l]
         if rc:
             broken.append(("translator", "go/gen could not translate /repo: " + out.strip()[-400:]))
         # 2. proofs
@@ -278,7 +279,8 @@ def main():
             err = first_coq_error(out)
             m = re.match(r"\./?([^ ]+) line (\d+):", err)
             thm = theorem_at(m.group(1), m.group(2)) if m else None
-            broken.append(("proof", "theorem/lemma %s no longer checks: %s" % (thm or "?", err)))
+            broken.append(("proof", "theorem/lemma %s no longer checks: %s%s" % (thm or "?", err,
+                           ("; functions the translator could not translate: " + "; ".join(skipped)) if skipped else "")))
         else:
             rc2, aout, th, prints, closed, axioms = assumptions(P["props_file"], coq_timeout)
             if rc2:
@@ -411,6 +413,7 @@ def main():
             "exhaustive": False,
             "oracle_violations": len(viols), "known_finding_hits": {k: n for k, (_, n) in known_hits.items()},
             "broken_ties": [b[1] for b in broken],
+            "translator_skipped_functions": skipped,
             "harness_notes": stats.get("notes") or [],
             "explanation": P["explanation"],
         },
